@@ -44,6 +44,12 @@ func checkC08(c *Ctx) {
 		rng := c.Rng("c08", i)
 		o := twinOpts(c, "C08", i)
 		o.Blocks = 12
+		long := i%4 == 0
+		if long {
+			// long enough for the second interval of the reward-hash record: what a node remembers about interval k-1
+			// while it writes interval k only matters from block 20 on
+			o.Blocks = 24
+		}
 		o.Gen.MaxTx = 8
 		o.Gen.InvalidPct = 15
 		o.Gen.W["proposal"], o.Gen.W["vote"], o.Gen.W["stake"], o.Gen.W["unstake"] = 10, 15, 20, 12
@@ -65,6 +71,12 @@ func checkC08(c *Ctx) {
 		var hs []int64
 		if c.Quick() {
 			hs = []int64{int64(2 + rng.Intn(4)), 10} // block 10 hits the reward-hash record
+			if i%2 == 1 {
+				hs = append(hs, 1) // the first block: nothing but what InitChain wrote is durable yet, and the handshake delivers InitChain again
+			}
+			if long {
+				hs = append(hs, 20, 21) // ... block 20 hits it for the second time; block 21 starts from a state committed at a multiple of the interval
+			}
 		} else {
 			for h := int64(1); h <= int64(nb)-2; h++ {
 				hs = append(hs, h)
